@@ -52,6 +52,9 @@ thread_local! {
     static PROBE_EARLY: std::cell::RefCell<Option<Probe>> = const { std::cell::RefCell::new(None) };
 }
 
+/// operations completed by each logical thread (background operations wait on these)
+static OPS_DONE: [std::sync::atomic::AtomicU64; 16] = [const { std::sync::atomic::AtomicU64::new(0) }; 16];
+
 static PROBE_PANICKED: std::sync::atomic::AtomicBool = std::sync::atomic::AtomicBool::new(false);
 /// how often the `SpanContext::random()` part of a teardown probe panicked (reported by `probeStats`)
 static PROBE_RANDOM_PANICS: std::sync::atomic::AtomicUsize = std::sync::atomic::AtomicUsize::new(0);
@@ -777,12 +780,26 @@ fn spawn_logical(k: usize) -> Logical {
                     let _ = ttx.send(if r.is_ok() { "exiting".into() } else { "panic".into() });
                     break;
                 }
+                // `after <thread> <count> <op…>`: a background operation that starts once that thread has completed
+                // `count` operations
+                let w: Vec<&str> = if w.first() == Some(&"after") && w.len() > 3 {
+                    let j: usize = w[1].parse().unwrap_or(0);
+                    let target: u64 = w[2].parse().unwrap_or(0);
+                    let t0 = std::time::Instant::now();
+                    while OPS_DONE[j % 16].load(std::sync::atomic::Ordering::SeqCst) < target && t0.elapsed() < Duration::from_secs(20) {
+                        std::thread::sleep(Duration::from_micros(200));
+                    }
+                    w[3..].to_vec()
+                } else {
+                    w
+                };
                 let r = catch_unwind(AssertUnwindSafe(|| thread_op(k, &mut guards, &w)));
                 let out = match r {
                     Ok(Some(s)) => s,
                     Ok(None) => "bad-op parse".into(),
                     Err(_) => "panic".into(),
                 };
+                OPS_DONE[k % 16].fetch_add(1, std::sync::atomic::Ordering::SeqCst);
                 if ttx.send(out).is_err() {
                     break;
                 }
@@ -906,6 +923,8 @@ fn run_case() {
     let mut reporter_set = false;
     let mut in_cycle = false;
     let mut flush_rx: Option<mpsc::Receiver<bool>> = None;
+    // logical threads with a background operation in flight (its answer has not been read yet)
+    let mut bg_pending: std::collections::HashSet<usize> = std::collections::HashSet::new();
 
     let mut emit = |s: String| {
         writeln!(out, "{}", s).unwrap();
@@ -1113,6 +1132,39 @@ fn run_case() {
                     )
                 }
             }
+            // background operations: the operation is started on its thread and may block (a thread's first use of
+            // its command channel waits for the registry lock while the collector drains); the driver goes on
+            [bg @ ("bgBegin" | "bgAfter"), rest @ ..] if !rest.is_empty() => match threads.get_mut(&k) {
+                None => "bad-op thread not spawned".into(),
+                Some(_) if bg_pending.contains(&k) => "bad-op background operation in flight".into(),
+                Some(th) => {
+                    let line = if *bg == "bgAfter" {
+                        let j: usize = rest[0].parse().unwrap_or(0);
+                        let target = OPS_DONE[j % 16].load(std::sync::atomic::Ordering::SeqCst) + if bg_pending.contains(&j) { 1 } else { 0 };
+                        format!("after {} {} {}", j, target, rest[1..].join(" "))
+                    } else {
+                        rest.join(" ")
+                    };
+                    if th.tx.send(line).is_err() {
+                        "bad-op thread gone".into()
+                    } else {
+                        match th.rx.recv_timeout(Duration::from_millis(60)) {
+                            Ok(s) => format!("bg done {}", s),
+                            Err(_) => {
+                                bg_pending.insert(k);
+                                "bg blocked".into()
+                            }
+                        }
+                    }
+                }
+            },
+            ["bgEnd"] => match threads.get_mut(&k) {
+                Some(th) if bg_pending.remove(&k) => match th.rx.recv_timeout(OP_TIMEOUT) {
+                    Ok(s) => s,
+                    Err(_) => "timeout".into(),
+                },
+                _ => "bad-op no background operation".into(),
+            },
             rest => {
                 if rest == ["spawn"] && !threads.contains_key(&k) {
                     threads.insert(k, spawn_logical(k));
